@@ -210,6 +210,12 @@ def check_calibration(mods, x, y, nt, levels, quant, want, kind, sign, rng):
     df = planted_test_frame(mods, x, y, xt, yt_day, nt, kind, rng)
     m = mods['tbr'].TBR(use_cooldown=False)
     m.fit(df, 'response')
+    if nt % 2 == 0:
+      try:   # the returned effect series is the caller's: overwritten in place before the report is asked for
+        eff = m.causal_effect((m.periods.test,))
+        eff.iloc[:] = 0.0
+      except Exception:  # pylint: disable=broad-except
+        pass
     row = m.summary(level=levels[1], tails=1, report='last').iloc[-1]
     est, lower, sc = float(row['estimate']), float(row['lower']), float(row['scale'])
   except Exception as e:  # pylint: disable=broad-except
